@@ -1,0 +1,12 @@
+//go:build verif
+
+package calculator
+
+// VerifC35PRepInfo exposes the PRepInfo an IISS-4 reward calculation built
+// (nil before processEvents or for another calculator type).
+func VerifC35PRepInfo(rc RewardCalculator) *PRepInfo {
+	if r, ok := rc.(*iiss4Reward); ok {
+		return r.pi
+	}
+	return nil
+}
